@@ -17,6 +17,10 @@ and after the caller removed nodes/edges from (cleared, added an edge to) a grap
 that is handed out must satisfy the callgraph clause *at the time of the request*: before create_xref() no callee is
 reported, so there is no edge; afterwards the edges are the model's (caller, callee) pairs whose caller passes the
 filters. Nothing is asserted about a graph after the caller has modified it. Buckets 'history:callgraph:<shape>:...'.
+Payloads in the middle of the code (xrefgen 'mid' sites: switch / fill-array-data payload jumped over by a goto) put invokes
+behind a payload pseudo-instruction; a method's callees are the targets of ALL its invokes, wherever they are located.
+Large-pool part (one shard, a handful of cases): single-DEX models whose pools are padded with unreferenced filler entries
+so that the invoked methods (35c / 3rc BBBB) and their classes sit on indices 0x7fff / 0x8000 / 0x8001 / .. 0xffff.
 Shipped part: the same clauses over shipped DEX/APK files, the call-site list being read from the raw code units with
 vf.gen.dalvik_spec (indices resolved by the DEX parser, not by analysis.py).
 
@@ -40,7 +44,9 @@ RULE = ('generated: xrefgen model (2..5 classes over 1..4 DEX files; bodies of 1
         'field/string/type instructions and fillers) -> DEX bytes -> Analysis; every xref getter compared with the model. '
         'roughly half of the generated cases also carry a drawn call-graph history (get_call_graph requests with 1..2 filter '
         'argument sets before / after create_xref, repeated, and after the caller modified a graph it was handed); every '
-        'graph handed out is checked against the clause as of the time of the request. '
+        'graph handed out is checked against the clause as of the time of the request. bodies contain switch / fill-array-data '
+        'payloads in the middle of the code (invokes behind a payload); one shard analyses a few single-DEX models padded to '
+        '> 0x8000 / 0xffff pool entries with the invoked methods on the index boundaries. '
         'shipped: every method of the shipped DEX/APK files, call sites read from the raw code units. non-trivial = >=1 '
         'internal callee, >=1 external callee and one callee called from one method at >=2 offsets; distinct = model')
 ASSUMPTIONS = ['vf/gen/dexgen.py writes well-formed DEX files; vf/gen/asm.py + dalvik_spec.py give instruction sizes/offsets',
@@ -413,6 +419,7 @@ def _labels(model, exp):
     if repeated:
         labels.add('repeated-call')
     labels.add('ndex:%d' % model['ndex'])
+    labels |= X.payload_labels(model, kinds=('inv',))
     return sorted(labels), (internal and external and repeated)
 
 
@@ -428,11 +435,14 @@ def run_model(ctx, model, record=True, history=None):
     if record:
         if history is not None:
             labels = sorted(set(labels) | _hist_labels(history))
+        if model.get('bulk'):
+            labels = sorted(set(labels) | {'large-pool'} |
+                            {l for l in X.index_labels(model, [df for (_, df) in built]) if l.startswith('idx:inv:')})
         ctx.case(nontrivial=nt, key=repr(model) + repr(history or ''), labels=labels,
                  sample={'classes': [c['name'] for c in model['classes']], 'ndex': model['ndex'],
                          'sites': {'%s->%s%s' % k: [[o, '%02x' % op, kd, t] for (o, op, kd, t) in v][:6]
                                    for k, v in list(exp['sites'].items())[:2]},
-                         'history': history})
+                         'history': history, 'bulk': model.get('bulk')})
     try:
         if history is None:
             dx, vms = A.analyse(datas)
@@ -515,8 +525,8 @@ def collect(ctx, strategy, run, n, salt, budget_s=4.0, skip=lambda bucket: False
         if not isinstance(case, dict) or case.get('mode') != 'model':
             continue
         hist = case.get('history')
-        small = A.shrink_model(ctx, lambda c, m, record=False: run(c, (m, hist), record), bucket,
-                               X.normalize(case['model']), budget_s)
+        orig, hist0 = X.normalize(case['model']), hist
+        small = A.shrink_model(ctx, lambda c, m, record=False: run(c, (m, hist), record), bucket, orig, budget_s)
         if hist is not None:
             def fails(h):
                 sub = runner.Ctx(ctx.prop, ctx.tier, ctx.seed, ctx.shard_index)
@@ -536,14 +546,23 @@ def collect(ctx, strategy, run, n, salt, budget_s=4.0, skip=lambda bucket: False
                     if fails(cand):
                         hist, progress = cand, True
                         break
+        if small == orig and hist == hist0:
+            continue                            # nothing smaller found: the recorded case stays
         ev, nt = ctx.evaluations, set(ctx.nontrivial)
         run(ctx, (small, hist), False)
         ctx.evaluations, ctx.nontrivial = ev, nt
 
 
+def _rich(model):
+    """large-pool cases are expensive: keep those with >= 3 invokes in 35c and >= 1 in 3rc form"""
+    ops = [s[1] for c in model['classes'] for m in c['methods'] if m['code'] for s in m['body'] if s[0] == 'inv']
+    return sum(1 for o in ops if o < 0x74) >= 3 and any(o >= 0x74 for o in ops)
+
+
 def shards(tier, seed):
     n = 12 if tier == 'quick' else 40
-    sh = [('gen', k) for k in range(n)] + [('gen-arrays', k) for k in range(3 if tier == 'quick' else 8)]
+    sh = [('large', k) for k in range(1 if tier == 'quick' else 4)]
+    sh += [('gen', k) for k in range(n)] + [('gen-arrays', k) for k in range(3 if tier == 'quick' else 8)]
     return sh + A.file_shards(tier)
 
 
@@ -551,6 +570,9 @@ def run_shard(ctx, shard):
     n = 800 if ctx.tier == 'quick' else 2500
     if shard[0] == 'gen':
         collect(ctx, cases(array_invokes=False), _run_noarr, n, salt=shard[1])
+    elif shard[0] == 'large':
+        strat = X.large_models(profile='invokes', array_invokes=False).filter(_rich).map(lambda m: (m, None))
+        collect(ctx, strat, _run_noarr, 4 if ctx.tier == 'quick' else 12, salt=200 + shard[1])
     elif shard[0] == 'gen-arrays':
         # array receivers kept; mismatches of the known shape are not reduced (the finding has its probe cases)
         collect(ctx, cases(array_invokes=True), run_case, n, salt=100 + shard[1],
